@@ -138,7 +138,7 @@ func configs(c *lib.Ctx) []*config {
 		}}
 		add(&config{sc: sc,
 			Rows: [][]row{cross(vals, []string{vE, vX}), cross(cks, vals)},
-			Ins:  [][]row{cross(vals, []string{vE}), cross(cks, vals)}}, 4, 6, 2, 3)
+			Ins:  [][]row{cross(vals, []string{vE}), cross(cks, vals)}}, 4, 5, 2, 2)
 	}
 	for _, m := range modes {
 		// 2. composite key with empty fields and zero bytes; the source columns
@@ -162,7 +162,7 @@ func configs(c *lib.Ctx) []*config {
 				Fks:   []fkDef{{Cols: []int{2, 0}, To: 0, ToCols: []int{0, 1}, Mode: m}},
 				Admin: "create c (fk2, ck, fk) key(ck) index(fk, fk2) in p(pk, pk2)" + sfx(m)},
 		}}
-		add(&config{sc: sc, Rows: [][]row{prow, crow}, Ins: [][]row{pins, crow}}, 3, 5, 1, 2)
+		add(&config{sc: sc, Rows: [][]row{prow, crow}, Ins: [][]row{pins, crow}}, 3, 4, 1, 2)
 	}
 	for _, m := range modes {
 		// 3. the foreign key is a prefix of a longer source index
@@ -441,9 +441,19 @@ func judge(cf *config, im *impl, before mstate, txn []op) judged {
 	var chosen expectation
 	var known string
 	var selfCasc bool
-	for i, e := range exps {
+	// (if it satisfies none completely, the expectation that leaves the fewest
+	// unclassified failures is the one reported)
+	best := [2]int{1 << 30, 1 << 30}
+	for _, e := range exps {
 		fails, k, amb, sca := evaluate(sc, e, before, txn, res, after)
-		if i == 0 || len(fails) == 0 {
+		score := [2]int{0, len(fails)}
+		for _, f := range fails {
+			if f.class == "" {
+				score[0]++
+			}
+		}
+		if score[0] < best[0] || score[0] == best[0] && score[1] < best[1] {
+			best = score
 			chosen, known, j.fails, j.ambiguous, selfCasc = e, k, fails, amb, sca
 		}
 		if len(fails) == 0 {
